@@ -417,7 +417,11 @@ def run(tier):
     guard_plan = ("guard", "guard %s" % ",".join(map(str, guard_ns)), None)
     # overlapping memmove with large lengths and small distances (a bulk path may only start after kilobytes)
     bigov_plan = ("bigov", "bigov 4032,4096,4160,8192,65539", {"memmove": 5 * 2 * 75 * 2})
-    plans += [mid_plan, guard_plan, bigov_plan]
+    # ... and at distances just below / above multiples of a page with n >= 32 KiB (page-aliasing heuristics)
+    bigov2_plan = ("bigov2", "bigov2 32768,65539,131072", {"memmove": 3 * 1040})
+    # lengths of megabytes (streaming / chunked paths): release and native probes only (the debug byte loops are too slow)
+    huge_plan = ("huge", "huge 2097144,2097181,2101307,4194317,16777221", {"memcpy": 15, "memmove": 45})
+    plans += [mid_plan, guard_plan, bigov_plan, bigov2_plan]
     nontrivial = set()
     ncanary = 0
     per_fn = {}
@@ -425,14 +429,24 @@ def run(tier):
     boundary_plan = ("small", "small cpy,mov,set,cmp,bcmp %s sub" % ",".join(map(str, BOUNDARY)),
                      expected_counts(BOUNDARY, {"cpy", "mov", "set", "cmp", "bcmp"}, False))
     # 1. run every plan on every build (seconds), 2. judge all of it with up to 8 single-worker TLC processes
-    runs = []
-    for build, binary in builds.items():
+    def plans_of(build):
         large_plan = next(pl for pl in plans if pl[0] == "large")
-        for tag, cmd, expect in (plans if build in ("debug", "release")
-                                 else [native_plan, large_plan, mid_plan, guard_plan, bigov_plan] if build == "native-release"
-                                 else [boundary_plan, large_plan, guard_plan, bigov_plan]):
-            # (a complete plan takes seconds; a hang of the code under test is a TimedOut event)
-            recs, status, partial = run_probe(binary, cmd, timeout=90 if quick else 600)
+        return (plans if build in ("debug", "release")
+                else [native_plan, large_plan, mid_plan, guard_plan, bigov_plan, bigov2_plan] if build == "native-release"
+                else [boundary_plan, large_plan, guard_plan, bigov_plan]) + ([huge_plan] if build in ("release", "native-release") else [])
+
+    def run_one(job):
+        build, binary, (tag, cmd, expect) = job
+        # (a complete plan takes seconds; a hang of the code under test is a TimedOut event)
+        return job, run_probe(binary, cmd, timeout=120 if quick else 600)
+
+    # all (build, plan) probe runs side by side (each is a single-threaded process)
+    jobs = [(build, binary, pl) for build, binary in builds.items() for pl in plans_of(build)]
+    with concurrent.futures.ThreadPoolExecutor(max_workers=6) as ex:
+        outcomes = list(ex.map(run_one, jobs))
+    runs = []
+    for (build, binary, (tag, cmd, expect)), (recs, status, partial) in outcomes:
+        if True:
             meta = [r for r in recs if r.get("f") == "meta"]
             calls = [r for r in recs if r.get("f") not in ("meta", "end")]
             if meta and (meta[0]["word"] != 8 or meta[0]["small_mod64"] != 0):
